@@ -97,6 +97,22 @@ def _kill(pid):
         pass
 
 
+def _limit_memory():
+    """In a forked child: a runaway allocation (unit ** 16777219 makes sympy ask for tens of gigabytes) must
+    end as a MemoryError inside that child - an outcome like any other exception - not as the kernel's OOM
+    killer taking out whichever process it likes."""
+    try:
+        import resource
+
+        cap = 8 << 30
+        soft, hard = resource.getrlimit(resource.RLIMIT_AS)
+        if hard != resource.RLIM_INFINITY:
+            cap = min(cap, hard)
+        resource.setrlimit(resource.RLIMIT_AS, (cap, hard))
+    except Exception:
+        pass
+
+
 def fork_eval(fn, args, timeout):
     """Run fn(*args) in a forked child, return its (picklable) result.
 
@@ -111,6 +127,7 @@ def fork_eval(fn, args, timeout):
         code = 0
         try:
             os.close(r)
+            _limit_memory()
             try:
                 res = ("ok", fn(*args))
             except BaseException:
@@ -195,6 +212,7 @@ def run_child(fn, args, timeout, cold_fn=None, cold_timeout=30.0):
         try:
             os.close(up_r)
             os.close(down_w)
+            _limit_memory()
             chan = Channel(up_w, down_r)
             try:
                 sites = start_raise_monitor()
